@@ -53,9 +53,9 @@ UsesThickness(dim, kind) == dim = 2 /\ kind \in {"surfLoad", "volumeLoad", "pres
 
 DensPairs == {<<"one", "zero">>, <<"lin", "one">>, <<"quad", "lin">>}
 Cases ==
-    {[dim |-> d, kind |-> k, region |-> r, dens |-> dp, thick |-> t, form |-> f, stray |-> s, dup |-> dp2, flood |-> fl] :
+    {[dim |-> d, kind |-> k, region |-> r, dens |-> dp, thick |-> t, form |-> f, stray |-> s, dup |-> dp2, flood |-> fl, order |-> o] :
         d \in Dims, k \in Kinds2 \cup Kinds3, r \in {"right", "top", "left", "bulk", "xmax", "zmax", "ymin", "edge"}, dp \in DensPairs, t \in Thicks,
-        f \in {"const", "func", "array"}, s \in BOOLEAN, dp2 \in BOOLEAN, fl \in BOOLEAN}
+        f \in {"const", "func", "array"}, s \in BOOLEAN, dp2 \in BOOLEAN, fl \in BOOLEAN, o \in {"ascending", "permuted"}}
 Valid(c) ==
     /\ c.region \in RegFor(c.dim, c.kind)
     /\ c.dim = 3 => c.thick = One
@@ -71,6 +71,9 @@ Valid(c) ==
     /\ (c.flood) => (c.stray /\ c.form # "array" /\ c.thick = One)
     (* a selection may list a node twice (two node sets sharing a corner concatenated): the loaded region is the same *)
     /\ (c.dup) => (c.form # "array" /\ ~c.stray /\ c.kind # "point")
+    (* a selection is a LIST of node ids in any order (the selection helpers of the library return them unsorted on larger meshes); *)
+    (* nodal arrays are given in the order of the list: the load does not depend on that order (the expectation has no such field)  *)
+    /\ (c.order = "permuted") => (c.form = "array" /\ ~c.stray /\ ~c.dup /\ c.kind # "point")
 
 Expect(c) ==
     LET reg == IF c.dim = 2 THEN Regions2[c.region] ELSE Regions3[c.region]
